@@ -49,7 +49,8 @@ def main():
     if not confirmed:
         print(out1[-500:])
         return 1
-    dest = os.path.join(ROOT, 'seeded', f'{pid}_{i}')
+    j = sys.argv[sys.argv.index('--as') + 1] if '--as' in sys.argv else i
+    dest = os.path.join(ROOT, 'seeded', f'{pid}_{j}')
     os.makedirs(dest, exist_ok=True)
     shutil.copy(diff, os.path.join(dest, 'patch.diff'))
     shutil.copy(demo, os.path.join(dest, 'demo.py'))
